@@ -138,6 +138,9 @@ func (x *c10World) build() {
 			return kit.M{"status": kit.M{}, "children": c10Desired(req), "finalized": false}
 		case "now":
 			return kit.M{"status": kit.M{}, "children": kit.L{}, "finalized": true}
+		case "split-keep":
+			// as "split", but the children are kept: an old revision goes on claiming its children
+			return kit.M{"status": kit.M{}, "children": c10Desired(req), "finalized": kit.Get(req, "parent", "spec", "template", "v") == "2"}
 		case "split":
 			// the answer depends on the parent revision: only the edited template says "finalized"
 			return kit.M{"status": kit.M{}, "children": kit.L{}, "finalized": kit.Get(req, "parent", "spec", "template", "v") == "2"}
@@ -299,6 +302,7 @@ func (x *c10World) sync(fault string) {
 	cachedParent, _ := x.PC.parentInformer.Lister().Namespace("n1").Get("p")
 	liveBefore := x.parent()
 	finAtCreate := map[int]bool{}
+	var createdBare []string
 	x.Sim.OnApplied = func(r *sim.Request) {
 		if r.Kind == kit.Leaf && r.Verb == "create" {
 			finAtCreate[r.Seq] = kit.HasFinalizer(x.Sim.GetLocked(kit.Thing, "n1", "p"), c10Fin)
@@ -339,7 +343,7 @@ func (x *c10World) sync(fault string) {
 				// F1: the finalizer is on the parent before any child is created for it
 				x.clause("F1")
 				if !finAtCreate[r.Seq] {
-					x.bad("F1:child-created-before-finalizer", "child %s created while the parent did not carry the finalizer", r.Name)
+					createdBare = append(createdBare, r.Name)
 				}
 			}
 		}
@@ -364,6 +368,7 @@ func (x *c10World) sync(fault string) {
 	}
 	// F3: which hook, with which finalizing flag
 	var finalizeAnswers []bool
+	var notFinalizedFor []string // parent spec (as sent) of every finalize call answered finalized:false
 	for _, hc := range x.Hooks.Calls {
 		if hc.Path == "/cc/customize" {
 			continue
@@ -386,11 +391,26 @@ func (x *c10World) sync(fault string) {
 			_ = jsonUnmarshal(hc.Resp, &resp)
 			fin, _ := resp["finalized"].(bool)
 			finalizeAnswers = append(finalizeAnswers, fin)
+			if !fin {
+				notFinalizedFor = append(notFinalizedFor, kit.JSON(kit.Get(hc.Parsed, "parent", "spec")))
+			}
+		}
+	}
+	// F1 verdict. (A finalize answer that says finalized:true and in the same breath desires a child that does
+	// not exist is the hook contradicting itself: the finalizer comes off as it asked, and the child is created
+	// as it asked. Not held against metacontroller.)
+	saidFinalized := false
+	for _, a := range finalizeAnswers {
+		saidFinalized = saidFinalized || a
+	}
+	if !saidFinalized {
+		for _, n := range createdBare {
+			x.bad("F1:child-created-before-finalizer", "child %s created while the parent did not carry the finalizer", n)
 		}
 	}
 	// F4: the finalizer is removed only after an answer with finalized:true (or when no finalize hook is
-	// configured). With several live revisions the code aggregates over the revisions that still claim
-	// children; the statement only demands *an* answer with finalized:true, so that is what is asserted.
+	// configured). With several live revisions there is one answer per revision in the same sync: at least one
+	// must say finalized:true, and none may say finalized:false.
 	if finRemovals > 0 {
 		x.clause("F4:removal")
 	}
@@ -404,6 +424,25 @@ func (x *c10World) sync(fault string) {
 		}
 		if !any {
 			x.bad("F4:finalizer-removed-without-finalized", "finalizer removed but the finalize answers were %v", finalizeAnswers)
+		}
+		// several live revisions: every revision's view of the parent gets its own answer in the same sync. An
+		// answer finalized:false for a revision that is still alive after the sync (it still claims children:
+		// its ControllerRevision was kept) says the hook is not done, whatever the other revisions say. (A
+		// revision that lost its last claim in this sync is gone, and its answer with it.)
+		for _, rev := range x.Sim.All(world.RevisionKind) {
+			var patch kit.M
+			switch pp := rev["parentPatch"].(type) {
+			case kit.M:
+				patch = pp
+			case string:
+				_ = jsonUnmarshal([]byte(pp), &patch)
+			}
+			spec := kit.JSON(patch["spec"])
+			for _, nf := range notFinalizedFor {
+				if nf == spec && len(kit.List(rev, "children")) > 0 {
+					x.bad("F4:finalizer-removed-despite-finalized-false", "finalizer removed in a sync whose finalize answers were %v (one per live revision): the answer for the revision with spec %s, which is still alive and claims %s, was finalized:false", finalizeAnswers, spec, kit.JSON(rev["children"]))
+				}
+			}
 		}
 	}
 	// F8 (the "honoured" half of F4): in a fault-free sync on an up-to-date cache in which every finalize answer
@@ -491,7 +530,7 @@ func TestVerifC10(t *testing.T) {
 	defer r.Write()
 	r.DeclareClauses("F1", "F2", "F3", "F3:finalize", "F4", "F4:removal", "F5", "F6", "F7", "F8")
 	var cfgs []c10Cfg
-	cfgs = append(cfgs, c10Cfg{Finalize: "split", Rolling: true})
+	cfgs = append(cfgs, c10Cfg{Finalize: "split", Rolling: true}, c10Cfg{Finalize: "split-keep", Rolling: true})
 	for _, f := range []string{"none", "keep", "teardown", "now"} {
 		for _, rolling := range []bool{false, true} {
 			cfgs = append(cfgs, c10Cfg{Finalize: f, Rolling: rolling})
